@@ -1,8 +1,220 @@
-(** * C04 — INTERIM file (being completed): collider AABBs. *)
-From Coq Require Import Reals Lra.
-From D3 Require Import Base.Ops Base.Vec Base.RVec Base.RVec2 Spec.Convex Spec.Shapes.
+(** * C04 — Collider AABBs enclose the shape and are tight on every axis.
+
+    Theorems only.  Model: Model/Aabb.v (transliteration of the nine containment.*_aabb
+    functions, MeshGraph.aabb, Margin.aabb, RigidBody.aabb) at exact real arithmetic.
+    Point sets: Spec/Shapes.v.  Proofs: Proofs/AabbProofs.v, Proofs/AabbProofsB.v.
+
+    [aabb_exact S lo hi := encloses S lo hi /\ tight S lo hi]:
+      encloses: every point of S has lo_k <= x_k <= hi_k on the three axes;
+      tight:    each of the six bounds is attained by a point of S.
+    Hypotheses are those of the declared domain: orthonormal poses ([is_rotation]), unit
+    normals, non-negative / positive sizes.  The ellipse needs NO hypothesis on its axes. *)
+From Coq Require Import Reals Lra Lia List.
+From D3 Require Import Base.Ops Base.Vec Base.RVec Base.RVec2 Spec.Convex Spec.Shapes
+  Model.Support Model.Aabb Proofs.ShapesTac Proofs.AabbProofs Proofs.AabbProofsB.
+Import ListNotations.
 Local Open Scope R_scope.
-Theorem C04_intersect_aabb_overlap (A B : set3) (lo1 hi1 lo2 hi2 : V3R) :
-  encloses A lo1 hi1 -> encloses B lo2 hi2 -> intersect A B -> aabb_overlap lo1 hi1 lo2 hi2.
-Proof. exact (intersect_aabb_overlap A B lo1 hi1 lo2 hi2). Qed.
-Print Assumptions C04_intersect_aabb_overlap.
+
+Theorem C04_sphere : forall c r, 0 <= r ->
+  aabb_exact (sphere_set c r) (fst (sphere_aabb c r)) (snd (sphere_aabb c r)).
+Proof. exact sphere_aabb_exact. Qed.
+Print Assumptions C04_sphere.
+
+(** the box never fails (no empty-array ValueError) and is exact for ANY pose matrix *)
+Theorem C04_box : forall T size, 0 <= vx size -> 0 <= vy size -> 0 <= vz size ->
+  exists lo hi, box_aabb T size = Some (lo, hi) /\ aabb_exact (box_set T size) lo hi.
+Proof. exact box_aabb_exact. Qed.
+Print Assumptions C04_box.
+
+Theorem C04_cylinder : forall T r l, is_rotation (rot T) -> 0 <= r -> 0 <= l ->
+  aabb_exact (cylinder_set T r l) (fst (cylinder_aabb T r l)) (snd (cylinder_aabb T r l)).
+Proof. exact cylinder_aabb_exact. Qed.
+Print Assumptions C04_cylinder.
+
+Theorem C04_capsule : forall T r h, is_rotation (rot T) -> 0 <= r -> 0 <= h ->
+  aabb_exact (capsule_set T r h) (fst (capsule_aabb T r h)) (snd (capsule_aabb T r h)).
+Proof. exact capsule_aabb_exact. Qed.
+Print Assumptions C04_capsule.
+
+Theorem C04_cone : forall T r h, is_rotation (rot T) -> 0 <= r -> 0 < h ->
+  aabb_exact (cone_set T r h) (fst (cone_aabb T r h)) (snd (cone_aabb T r h)).
+Proof. exact cone_aabb_exact. Qed.
+Print Assumptions C04_cone.
+
+Theorem C04_disk : forall c r n, 0 <= r -> dot n n = 1 ->
+  aabb_exact (disk_set c r n) (fst (disk_aabb c r n)) (snd (disk_aabb c r n)).
+Proof. exact disk_aabb_exact. Qed.
+Print Assumptions C04_disk.
+
+Theorem C04_ellipse : forall c a0 a1 r0 r1, 0 < r0 -> 0 < r1 ->
+  aabb_exact (ellipse_set c a0 a1 r0 r1) (fst (ellipse_aabb c a0 a1 r0 r1)) (snd (ellipse_aabb c a0 a1 r0 r1)).
+Proof. exact ellipse_aabb_exact. Qed.
+Print Assumptions C04_ellipse.
+
+(** ** ellipsoid: finding F9.  The statement "for every rotation the box encloses the
+       ellipsoid" is FALSE for the faithful model: *)
+Theorem C04_ellipsoid_refuted :
+  exists (T : Pose R) (a x : V3R), is_rotation (rot T) /\ 0 < vx a /\ 0 < vy a /\ 0 < vz a /\
+    ellipsoid_set T a x /\ vx (snd (ellipsoid_aabb T a)) < vx x.
+Proof. exact ellipsoid_aabb_refuted. Qed.
+Print Assumptions C04_ellipsoid_refuted.
+
+(** what IS true: exact for the 48 signed permutation matrices (axis-aligned poses) ... *)
+Theorem C04_ellipsoid_axis_aligned : forall T a, signed_perm (rot T) -> 0 < vx a -> 0 < vy a -> 0 < vz a ->
+  aabb_exact (ellipsoid_set T a) (fst (ellipsoid_aabb T a)) (snd (ellipsoid_aabb T a)).
+Proof. exact ellipsoid_aabb_axis_aligned. Qed.
+Print Assumptions C04_ellipsoid_axis_aligned.
+
+(** ... for every rotation the code's half extents are max_i sum_j R_ij R_kj radii_j ... *)
+Theorem C04_ellipsoid_formula (T : Pose R) (a : V3R) :
+  is_rotation (rot T) -> 0 < vx a -> 0 < vy a -> 0 < vz a ->
+  ellipsoid_aabb T a =
+  (vsub (trans T) (V (ell_ext (rot T) a 0) (ell_ext (rot T) a 1) (ell_ext (rot T) a 2)),
+   vadd (trans T) (V (ell_ext (rot T) a 0) (ell_ext (rot T) a 1) (ell_ext (rot T) a 2))).
+Proof. exact (ellipsoid_aabb_rotation T a). Qed.
+Print Assumptions C04_ellipsoid_formula.
+
+(** ... which never exceed the true half extents sqrt(sum_j (radii_j R_kj)^2) (so the box
+    is never too large, and it is too small whenever the two differ) ... *)
+Theorem C04_ellipsoid_never_larger (T : Pose R) (a : V3R) (k : nat) :
+  is_rotation (rot T) -> 0 < vx a -> 0 < vy a -> 0 < vz a ->
+  ell_ext (rot T) a k <= ell_true (row (rot T) k) a.
+Proof. exact (ellipsoid_aabb_never_larger T a k). Qed.
+Print Assumptions C04_ellipsoid_never_larger.
+
+(** ... and the true box, for ANY pose matrix (this is what a repair has to compute) *)
+Theorem C04_ellipsoid_true_box (T : Pose R) (a : V3R) : 0 < vx a -> 0 < vy a -> 0 < vz a ->
+  let e := V (ell_true (row (rot T) 0) a) (ell_true (row (rot T) 1) a) (ell_true (row (rot T) 2) a) in
+  aabb_exact (ellipsoid_set T a) (vsub (trans T) e) (vadd (trans T) e).
+Proof. exact (ellipsoid_true_aabb T a). Qed.
+Print Assumptions C04_ellipsoid_true_box.
+
+(** ** vertex hulls, meshes, Margin *)
+Theorem C04_hull : forall (vs : list V3R) lo hi,
+  axis_aligned_bounding_box vs = Some (lo, hi) -> aabb_exact (conv_hull vs) lo hi.
+Proof. exact vertices_aabb_exact. Qed.
+Print Assumptions C04_hull.
+
+Theorem C04_hull_total : forall (vs : list V3R), vs <> [] -> exists b, axis_aligned_bounding_box vs = Some b.
+Proof. exact vertices_aabb_total. Qed.
+Print Assumptions C04_hull_total.
+
+Theorem C04_mesh : forall T (vs : list V3R) lo hi,
+  mesh_aabb T vs = Some (lo, hi) -> aabb_exact (hull_set T vs) lo hi.
+Proof. exact mesh_aabb_exact. Qed.
+Print Assumptions C04_mesh.
+
+(** Margin.aabb(): exact for the Minkowski sum with a ball, whatever it wraps *)
+Theorem C04_margin : forall (S : set3) lo hi m, 0 <= m -> aabb_exact S lo hi ->
+  aabb_exact (inflate S m) (fst (margin_aabb (lo, hi) m)) (snd (margin_aabb (lo, hi) m)).
+Proof. exact margin_aabb_exact. Qed.
+Print Assumptions C04_margin.
+
+(** ** RigidBody.aabb(): exact for the stored (body-frame) vertices used by the tetrahedra,
+       independent of body2origin, hence wrong in the world frame (finding RB-AABB) *)
+Theorem C04_rigid_body_body_frame : forall (T : Pose R) vs ts lo hi,
+  rigid_body_aabb T vs ts = Some (lo, hi) ->
+  exists pts, used_points vs ts = Some pts /\ pts <> [] /\ aabb_exact (conv_hull pts) lo hi.
+Proof. exact rigid_body_aabb_body_frame. Qed.
+Print Assumptions C04_rigid_body_body_frame.
+
+Theorem C04_rigid_body_ignores_pose : forall (T T' : Pose R) vs ts,
+  rigid_body_aabb T vs ts = rigid_body_aabb T' vs ts.
+Proof. exact rigid_body_aabb_ignores_pose. Qed.
+Print Assumptions C04_rigid_body_ignores_pose.
+
+Theorem C04_rigid_body_world_refuted :
+  exists (T : Pose R) vs ts lo hi pts x,
+    is_rotation (rot T) /\ rigid_body_aabb T vs ts = Some (lo, hi) /\ used_points vs ts = Some pts /\
+    hull_set T pts x /\ nthv hi 0 < nthv x 0.
+Proof. exact rigid_body_aabb_world_refuted. Qed.
+Print Assumptions C04_rigid_body_world_refuted.
+
+(** ** consequences *)
+(** each bound is the coordinate of ANY support point along +-e_k (ties C04 to C03) *)
+Theorem C04_bounds_are_support_values : forall (S : set3) lo hi k s, (k < 3)%nat ->
+  aabb_exact S lo hi ->
+  (is_support S (eR k) s -> nthv s k = nthv hi k) /\ (is_support S (vneg (eR k)) s -> nthv s k = nthv lo k).
+Proof. exact aabb_exact_support. Qed.
+Print Assumptions C04_bounds_are_support_values.
+
+(** broad-phase completeness: if two point sets meet, their exact boxes overlap (the
+    closed-interval overlap test of C05), so the broad phase cannot drop a real collision *)
+Theorem C04_shapes_meet_aabb_overlap (A B : set3) lo1 hi1 lo2 hi2 :
+  aabb_exact A lo1 hi1 -> aabb_exact B lo2 hi2 -> intersect A B -> aabb_overlap lo1 hi1 lo2 hi2.
+Proof. exact (shapes_meet_aabb_overlap A B lo1 hi1 lo2 hi2). Qed.
+Print Assumptions C04_shapes_meet_aabb_overlap.
+
+(** ** non-vacuity.  [T345z]: rotation by atan(4/3) about z (exact entries) + translation. *)
+Definition T345z : Pose R := P (M (V (3 / 5) (- (4 / 5)) 0) (V (4 / 5) (3 / 5) 0) (V 0 0 1)) (V 1 2 3).
+Definition T345x : Pose R := P (M (V 1 0 0) (V 0 (3 / 5) (- (4 / 5))) (V 0 (4 / 5) (3 / 5))) (V 1 2 3).
+Lemma T345z_rotation : is_rotation (rot T345z).
+Proof. apply is_rotation_cols. unfold cols_orthonormal, T345z. vunfold. cbn. repeat split; field. Qed.
+Lemma T345x_rotation : is_rotation (rot T345x).
+Proof. apply is_rotation_cols. unfold cols_orthonormal, T345x. vunfold. cbn. repeat split; field. Qed.
+
+Example C04_sphere_nonvacuous :
+  aabb_exact (sphere_set (V 1 2 3) 2) (fst (sphere_aabb (V 1 2 3) 2)) (snd (sphere_aabb (V 1 2 3) 2)).
+Proof. apply C04_sphere; lra. Qed.
+Example C04_box_nonvacuous :
+  exists lo hi, box_aabb T345z (V 2 4 6) = Some (lo, hi) /\ aabb_exact (box_set T345z (V 2 4 6)) lo hi.
+Proof. apply C04_box; cbn [vx vy vz]; lra. Qed.
+(** a tilted axis (row entries 4/5, 3/5): the sqrt(1 - a^2) terms are 3/5, 4/5, not 0 or 1 *)
+Example C04_cylinder_nonvacuous :
+  aabb_exact (cylinder_set T345x 2 4) (fst (cylinder_aabb T345x 2 4)) (snd (cylinder_aabb T345x 2 4)).
+Proof. apply C04_cylinder; [exact T345x_rotation|lra|lra]. Qed.
+Example C04_capsule_nonvacuous :
+  aabb_exact (capsule_set T345x (/ 2) 3) (fst (capsule_aabb T345x (/ 2) 3)) (snd (capsule_aabb T345x (/ 2) 3)).
+Proof. apply C04_capsule; [exact T345x_rotation|lra|lra]. Qed.
+Example C04_cone_nonvacuous :
+  aabb_exact (cone_set T345x 1 2) (fst (cone_aabb T345x 1 2)) (snd (cone_aabb T345x 1 2)).
+Proof. apply C04_cone; [exact T345x_rotation|lra|lra]. Qed.
+Example C04_disk_nonvacuous :
+  aabb_exact (disk_set (V 1 2 3) 2 (V 0 (3 / 5) (4 / 5)))
+             (fst (disk_aabb (V 1 2 3) 2 (V 0 (3 / 5) (4 / 5)))) (snd (disk_aabb (V 1 2 3) 2 (V 0 (3 / 5) (4 / 5)))).
+Proof. apply C04_disk; [lra|vunfold; field]. Qed.
+Example C04_ellipse_nonvacuous :
+  aabb_exact (ellipse_set (V 1 2 3) (V (3 / 5) (4 / 5) 0) (V 0 0 1) 2 3)
+             (fst (ellipse_aabb (V 1 2 3) (V (3 / 5) (4 / 5) 0) (V 0 0 1) 2 3))
+             (snd (ellipse_aabb (V 1 2 3) (V (3 / 5) (4 / 5) 0) (V 0 0 1) 2 3)).
+Proof. apply C04_ellipse; lra. Qed.
+(** an axis-aligned pose that is not the identity: x -> y, y -> -x *)
+Example C04_ellipsoid_axis_aligned_nonvacuous :
+  aabb_exact (ellipsoid_set (P (M (V 0 (-1) 0) (V 1 0 0) (V 0 0 1)) (V 1 2 3)) (V 1 2 3))
+             (fst (ellipsoid_aabb (P (M (V 0 (-1) 0) (V 1 0 0) (V 0 0 1)) (V 1 2 3)) (V 1 2 3)))
+             (snd (ellipsoid_aabb (P (M (V 0 (-1) 0) (V 1 0 0) (V 0 0 1)) (V 1 2 3)) (V 1 2 3))).
+Proof.
+  apply C04_ellipsoid_axis_aligned; cbn [vx vy vz]; try lra.
+  exists 1%nat, 0%nat, 2%nat, (-1), 1, 1. unfold perm3, sgn1. cbn [rot].
+  repeat split; auto; try tauto. cbn [eR]. vunfold. repeat f_equal; ring.
+Qed.
+Example C04_hull_nonvacuous :
+  exists lo hi, axis_aligned_bounding_box [V 1 0 0; V 0 2 0; V 0 0 3; V (-1) (-1) (-1)] = Some (lo, hi) /\
+    aabb_exact (conv_hull [V 1 0 0; V 0 2 0; V 0 0 3; V (-1) (-1) (-1)]) lo hi.
+Proof.
+  destruct (C04_hull_total [V 1 0 0; V 0 2 0; V 0 0 3; V (-1) (-1) (-1)]) as [[lo hi] E]; [discriminate|].
+  exists lo, hi. split; [exact E|apply C04_hull; exact E].
+Qed.
+Example C04_mesh_nonvacuous :
+  exists lo hi, mesh_aabb T345z [V 1 0 0; V 0 2 0; V 0 0 3; V (-1) (-1) (-1)] = Some (lo, hi) /\
+    aabb_exact (hull_set T345z [V 1 0 0; V 0 2 0; V 0 0 3; V (-1) (-1) (-1)]) lo hi.
+Proof.
+  destruct (mesh_aabb T345z [V 1 0 0; V 0 2 0; V 0 0 3; V (-1) (-1) (-1)]) as [[lo hi]|] eqn:E; [|discriminate].
+  exists lo, hi. split; [reflexivity|apply C04_mesh; exact E].
+Qed.
+Example C04_margin_nonvacuous :
+  aabb_exact (inflate (sphere_set (V 1 2 3) 2) (/ 2))
+    (fst (margin_aabb (sphere_aabb (V 1 2 3) 2) (/ 2))) (snd (margin_aabb (sphere_aabb (V 1 2 3) 2) (/ 2))).
+Proof. apply (C04_margin (sphere_set (V 1 2 3) 2)); [lra|apply C04_sphere; lra]. Qed.
+Example C04_rigid_body_nonvacuous :
+  exists lo hi, rigid_body_aabb T345z [V 0 0 0; V 1 0 0; V 0 1 0; V 0 0 1; V 1 1 1] [(0, 1, 2, 3); (1, 2, 3, 4)]%nat = Some (lo, hi).
+Proof. eexists. eexists. reflexivity. Qed.
+(** two balls that meet, hence overlapping boxes *)
+Example C04_shapes_meet_nonvacuous :
+  aabb_overlap (fst (sphere_aabb (V 0 0 0) 1)) (snd (sphere_aabb (V 0 0 0) 1))
+               (fst (sphere_aabb (V 1 1 0) 1)) (snd (sphere_aabb (V 1 1 0) 1)).
+Proof.
+  apply (C04_shapes_meet_aabb_overlap (sphere_set (V 0 0 0) 1) (sphere_set (V 1 1 0) 1));
+    try (apply C04_sphere; lra).
+  exists (V 1 0 0). split; apply sphere_set_iff; vunfold; cbn [vx vy vz]; lra.
+Qed.
